@@ -1,8 +1,22 @@
+//! Harness over `p2panda-auth` (pure Rust; C32 also runs under Miri).
+//!
+//! C31 replicas converge / answers are stable, C32 merge laws, C33 only authorised actors change
+//! membership.
+
+mod c31;
+mod c32;
+mod c33;
+mod generator;
+mod model;
+
 use vh_common::Args;
 
 fn main() {
     let args = Args::parse();
     match args.prop.as_str() {
-        other => panic!("vh-auth does not serve {other} yet"),
+        "C31" => c31::run(&args),
+        "C32" => c32::run(&args),
+        "C33" => c33::run(&args),
+        other => panic!("vh-auth does not serve {other}"),
     }
 }
